@@ -37,6 +37,26 @@ def setup(tier):
     charge.install_charge_contract()
 
 
+def add_hetero(recs, rng, classes):
+    """A ligand of the fragment library or a nucleotide (custom model pKa values per residue and atom
+    name) placed next to an ionizable side chain."""
+    from .. import fragments, pdbio
+    from .c16 import titratable_anchor
+    pool = sorted(fragments.FRAGMENTS) + ["dna:DA", "dna:DG", "dna:DC", "dna:DT"] * 3
+    for k in range(rng.choice((1, 2, 2, 3))):
+        # several at once: groups of one type then carry different model pKa values (DA 3.82, DG 9.59,
+        # pyridine 5.00 are all of type NAR)
+        fname = rng.choice(pool)
+        frag, _e, _d = fragments.place_near(recs, fname, rng, anchor=titratable_anchor(recs, rng),
+                                            dist_A=rng.choice((3.0, 3.5, 4.5, 6.0)), min_clear_A=2.7,
+                                            chain="N" if fname.startswith("dna:") else "L", resnum=900 + k)
+        if not frag:
+            continue
+        classes.append("hetero:" + fname)
+        recs = recs + ([pdbio.raw("TER")] if fname.startswith("dna:") else []) + frag
+    return recs
+
+
 ACIDS = ("ASP", "GLU", "CYS", "TYR")
 BASES = ("HIS", "LYS", "ARG")
 
@@ -93,6 +113,8 @@ def run_case(case, tier):
     elif case["kind"] == "cutout":
         recs = sources.random_small_structure(rng, 80, 900)
         mode = "cutout"
+        if rng.random() < 0.3:
+            recs = add_hetero(recs, rng, classes)
         if rng.random() < 0.2:
             from .. import multiconf
             recs, _d = multiconf.build(rng, base=recs)
